@@ -182,6 +182,9 @@ class Parser:
                 return 'mutslice'           # `&mut [u64]`: returned (updated) next to the function's own result
             if t == 'str':
                 return 'slice'              # `&str`: the sequence of its characters (code points)
+            if m and isinstance(t, str) and (t in WIDTH or t == 'bool'):
+                # `&mut u64` etc.: the write-back through the reference is not modelled — never drop it silently
+                raise TranslateError('&mut %s: write-back through a scalar reference is outside the subset' % t)
             return t
         kind, v = self.next()
         if v == 'Wrapping':
